@@ -304,3 +304,83 @@ Example nx_shrink_before_final_sync_rejected :
   /\ step_okb px_stS (PCommit false (ex_slot 0 6) [(512, 2)] [(512, [0; 6])] (Some (1536, px_lay 0 2))) = true
   /\ forallb wrec_okb (all_windows (run_step px_stS (PCommit false (ex_slot 0 6) [(512, 2)] [(512, [0; 6])] (Some (1536, px_lay 0 2))))) = true.
 Proof. vm_compute. auto. Qed.
+
+(* ================================================================================================
+   Recovery (DESIGN's recovery_idempotent_under_crash): the writes the model of TransactionalMemory::new +
+   Database::new issues on ANY truthful summary of a recoverable image -- header repair (layout recomputed
+   from the file length, primary chosen by select_primary_slot, a rolled back commit erased from the secondary
+   under a trusted 2PC primary), then either the quick path (begin_writable) or the full repair
+   (clear_recovery_required, the two flushes of the repair commit, begin_writable) -- form windows that
+   window_okb accepts, whichever of the two slots recovery ends up serving and whatever the other slot holds
+   (torn, stale and newer, older, a copy); and the run ends in a state of the protocol invariant, so the
+   history theorems above apply to what follows.  A crash image of any of these windows is therefore again
+   an input of crash_window_safe (given a truthful summary of the window's start).
+   ================================================================================================ *)
+
+Theorem recovery_windows_ok :
+  forall (H : bytes -> bytes) (expect : bytes -> list (N * bytes)) (ps : N) (d : dsum) (D : image)
+         (o : roracle) (a : acc),
+    image_ok H expect ps d D -> rec_side_okb d o = true -> recovery_run d o = Some a ->
+    forallb wrec_okb (a_ws a) = true /\ Inv (a_st a) /\ p_open (a_st a) = true.
+Proof. exact ProtocolP.recovery_windows_ok_sem. Qed.
+
+(* the same from the executable side conditions alone *)
+Theorem recovery_windows_ok_exec :
+  forall (d : dsum) (o : roracle),
+    rec_okb d o = true -> forall a : acc, recovery_run d o = Some a ->
+    forallb wrec_okb (a_ws a) = true /\ Inv (a_st a) /\ p_open (a_st a) = true.
+Proof. exact ProtocolP.recovery_ok. Qed.
+
+(* the part of the side conditions a truthful summary has by itself *)
+Theorem image_ok_gives_header_conditions :
+  forall (H : bytes -> bytes) (expect : bytes -> list (N * bytes)) (ps : N) (d : dsum) (D : image),
+    image_ok H expect ps d D ->
+    (dP d = dQ d -> d_p d = flag (dgod d) PRIMARY_BIT) ->
+    rec_hdr_okb d = true.
+Proof. exact ProtocolP.image_ok_rec_hdr. Qed.
+
+(* full repair from the god-byte-only crash image of C01Example: 5 windows (header repair, clear flag, two
+   flushes of the repair commit, begin_writable), all accepted; the final state has the invariant *)
+Example rx_full :
+  rec_okb rx_d_god rx_o_full = true
+  /\ match recovery_run rx_d_god rx_o_full with
+     | Some a => length (a_ws a) = 5%nat /\ forallb wrec_okb (a_ws a) = true /\ links_okb (a_ws a) = true
+                 /\ inv_b (a_st a) = true
+     | None => False
+     end.
+Proof. vm_compute. auto. Qed.
+Example rx_full_image_ok : image_ok Hideal ex_expect ex_ps rx_d_god ex_img_god.
+Proof.
+  constructor.
+  - vm_compute. reflexivity.
+  - intros i Hi. unfold ex_img_god. cbn [iat]. destruct (i =? GOD_BYTE_OFFSET) eqn:E.
+    + apply N.eqb_eq in E. subst i. vm_compute. reflexivity.
+    + unfold ex_D, ex_img, ex_at. cbn [iat]. apply N.ltb_lt in Hi. rewrite Hi.
+      unfold rx_hdr_god, ex_hdrD, ex_hdr, hget.
+      assert (Hn : N.to_nat i <> 9%nat) by (apply N.eqb_neq in E; unfold GOD_BYTE_OFFSET in E; lia).
+      remember (N.to_nat i) as n.
+      do 9 (destruct n as [|n]; [reflexivity|]). destruct n as [|n]; [contradiction|]. reflexivity.
+  - reflexivity.
+  - vm_compute. reflexivity.
+  - vm_compute. reflexivity.
+  - intros e He. vm_compute in He. destruct He as [<- | []]. vm_compute. reflexivity.
+  - vm_compute. reflexivity.
+  - intros rq E. discriminate.
+  - vm_compute. reflexivity.
+Qed.
+Example rx_full_by_theorem :
+  forall a, recovery_run rx_d_god rx_o_full = Some a -> forallb wrec_okb (a_ws a) = true.
+Proof.
+  intros a E. refine (proj1 (recovery_windows_ok Hideal ex_expect ex_ps rx_d_god ex_img_god rx_o_full a rx_full_image_ok _ E)).
+  vm_compute. reflexivity.
+Qed.
+(* quick path under a trusted 2PC primary with a stale newer secondary: the header repair erases the rolled
+   back commit (slot 1 becomes a copy of slot 0), then begin_writable: 2 windows, accepted *)
+Example rx_quick :
+  rec_okb rx_d_2pc rx_o_quick = true
+  /\ match recovery_run rx_d_2pc rx_o_quick with
+     | Some a => length (a_ws a) = 2%nat /\ forallb wrec_okb (a_ws a) = true
+                 /\ bytes_eqb (dQ (p_d (a_st a))) ex_P = true /\ inv_b (a_st a) = true
+     | None => False
+     end.
+Proof. vm_compute. auto. Qed.
